@@ -18,6 +18,9 @@ CONSTANTS MaxLen, MaxV, Wts,
                          \*        sample size only, so an earlier fit with another delta supplies them
           StaleDelta,    \* TRUE = deviation: with a fixed delta the fit uses the object's CURRENT delta attribute
                          \*        (left by an earlier fit / an assignment) instead of the f_delta in force
+          StalePositions,\* TRUE = deviation: the linearised positions of the most recent call are kept in a
+                         \*        class-level slot keyed by (number of NON-ZERO observations, delta); a sample with
+                         \*        the same non-zero count but another number of zeros gets the stale positions
           HistLen        \* histories (an earlier fixed-delta fit on an equally long sample) are explored
                          \* for data vectors up to this length
 VARIABLES pc, method, wk, F, d, w, ord, cur,
@@ -27,9 +30,11 @@ VARIABLES pc, method, wk, F, d, w, ord, cur,
           objd,          \* object history: 0 = fresh object (its delta is the f_delta in force); 1 / 2 = the
                          \*   object's delta attribute holds that other value (an earlier fit with a free or another
                          \*   fixed delta, an assignment, a deepcopy of such an object) and f_delta was set afterwards
+          pz,            \* history: -1 = none; k = the previous least-squares fit (same delta in force) was made
+                         \*   on a sample with the same non-zero observations and k zeros
           lind           \* the delta the linearised positions handed to the regression were computed for
 
-vars == <<pc, method, wk, F, d, w, ord, cur, dcode, prev, objd, lind>>
+vars == <<pc, method, wk, F, d, w, ord, cur, dcode, prev, objd, pz, lind>>
 
 Methods == {"lsq", "wlsq", "mle", "other"}
 DataVecs == UNION {[1..n -> 0..MaxV] : n \in 1..MaxLen}
@@ -52,6 +57,7 @@ Init ==
     /\ lind = -1
     /\ dcode \in IF F = {"delta"} THEN {1, 2} ELSE {0}
     /\ prev \in IF Len(d) <= HistLen THEN {0, 1, 2} ELSE {0}
+    /\ pz \in IF Len(d) <= HistLen /\ F = {"delta"} THEN {-1, 0, 1, 2} ELSE {-1}
     /\ objd \in IF Len(d) <= HistLen /\ F = {"delta"} THEN {0, 1, 2} ELSE {0}
 
 Dispatch ==
@@ -60,41 +66,46 @@ Dispatch ==
              ELSE IF wk \in BadWeights THEN "ValueError"         \* the code checks weights first
              ELSE IF ByFixed(F) = "NotImplementedError" THEN "NotImplementedError"
              ELSE IF ZerosFirst THEN "dropfirst" ELSE "sorting"
-    /\ UNCHANGED <<method, wk, F, d, w, ord, cur, dcode, prev, objd, lind>>
+    /\ UNCHANGED <<method, wk, F, d, w, ord, cur, dcode, prev, objd, pz, lind>>
 
 DropFirst ==                                       \* only under the ZerosFirst deviation
     /\ pc = "dropfirst"
     /\ cur' = DropZeroStep(cur)
     /\ pc' = "sorting"
-    /\ UNCHANGED <<method, wk, F, d, w, ord, dcode, prev, objd, lind>>
+    /\ UNCHANGED <<method, wk, F, d, w, ord, dcode, prev, objd, pz, lind>>
 
 Sort ==
     /\ pc = "sorting"
     /\ ord' = ArgSortObs(cur, wk, TieByWeight)
     /\ cur' = SortStep(cur, ord')
     /\ pc' = "weights"
-    /\ UNCHANGED <<method, wk, F, d, w, dcode, prev, objd, lind>>
+    /\ UNCHANGED <<method, wk, F, d, w, dcode, prev, objd, pz, lind>>
 
 Weights ==
     /\ pc = "weights"
     /\ cur' = IF wk = "array" THEN CoSortStep(cur, ord, CoSort) ELSE KeywordStep(cur, wk)
     /\ pc' = "ranking"
-    /\ UNCHANGED <<method, wk, F, d, w, ord, dcode, prev, objd, lind>>
+    /\ UNCHANGED <<method, wk, F, d, w, ord, dcode, prev, objd, pz, lind>>
 
 Rank ==
     /\ pc = "ranking"
-    /\ cur' = RankStep(cur, PosRule)
+    /\ LET z == Cardinality({i \in 1..Len(cur) : cur[i].x = 0})
+           fresh == RankStep(cur, PosRule)
+       IN cur' = IF StalePositions /\ F = {"delta"} /\ pz # -1 /\ pz # z
+                 THEN [i \in 1..Len(cur) |->          \* the positions the previous sample's non-zero observations had
+                         [fresh[i] EXCEPT !.pn = @ - 2 * z + 2 * pz, !.pd = @ - 2 * z + 2 * pz]]
+                 ELSE fresh
     /\ lind' = IF SharedPos /\ F = {"delta"} /\ prev # 0 THEN prev
                ELSE IF StaleDelta /\ F = {"delta"} /\ objd # 0 THEN objd
                ELSE dcode
     /\ pc' = "dropping"
-    /\ UNCHANGED <<method, wk, F, d, w, ord, dcode, prev, objd>>
+    /\ UNCHANGED <<method, wk, F, d, w, ord, dcode, prev, objd, pz>>
 
 DropZeros ==
     /\ pc = "dropping"
     /\ cur' = DropZeroStep(cur)
     /\ pc' = ByFixed(F)
-    /\ UNCHANGED <<method, wk, F, d, w, ord, dcode, prev, objd, lind>>
+    /\ UNCHANGED <<method, wk, F, d, w, ord, dcode, prev, objd, pz, lind>>
 
 Next == Dispatch \/ DropFirst \/ Sort \/ Weights \/ Rank \/ DropZeros
 Spec == Init /\ [][Next]_vars
@@ -126,5 +137,5 @@ LinearisedForOwnDelta == Done => lind = dcode
 
 (* ---- leg R: the enumerated inputs *)
 CaseRec == [method |-> method, wk |-> wk, fixed |-> F, d |-> d, w |-> w]
-Emit == pc = "start" /\ prev = 0 /\ objd = 0 /\ dcode <= 1 => PrintT(<<"BEH", ToJson(CaseRec)>>)
+Emit == pc = "start" /\ prev = 0 /\ objd = 0 /\ pz = -1 /\ dcode <= 1 => PrintT(<<"BEH", ToJson(CaseRec)>>)
 =============================================================================
